@@ -79,6 +79,12 @@ def comparisons(F, f):
     seen_bin = set()
 
     def add(op, a, b, ln):
+        if op in ('Eq', 'Ne'):
+            # unsigned x against 0: `x == 0` is `x <= 0`, `x != 0` is `x > 0` (and mirrored)
+            if core.is_unsigned_zero(b):
+                op = 'Le' if op == 'Eq' else 'Gt'
+            elif core.is_unsigned_zero(a):
+                op = 'Ge' if op == 'Eq' else 'Lt'
         if op not in ('Lt', 'Le', 'Gt', 'Ge'):
             return
         A, B = operand_atoms(a), operand_atoms(b)
@@ -115,7 +121,7 @@ def comparisons(F, f):
             if l is not None:
                 used_by_switch.add(l)
     for bi, si, pl, rv, ln in f.stmts():
-        if rv[0] == 'bin' and rv[1] in ('Lt', 'Le', 'Gt', 'Ge') and not (len(pl) == 1 and pl[0] in used_by_switch):
+        if rv[0] == 'bin' and rv[1] in ('Lt', 'Le', 'Gt', 'Ge', 'Eq', 'Ne') and not (len(pl) == 1 and pl[0] in used_by_switch):
             add(rv[1], f.expr_of_op(rv[2]), f.expr_of_op(rv[3]), ln)
     for bi, t in f.calls(lambda t: t['fn'].rsplit('::', 1)[-1] in ('lt', 'le', 'gt', 'ge') and ('PartialOrd' in t['fn'] or 'cmp::impls' in t['fn'])):
         d = t['d']
@@ -158,7 +164,9 @@ def check(ctx, rid, prop):
         got = sorted(p for k, p, ln in cache[e['fn']] if k == e['key'])
         lines = [ln for k, p, ln in cache[e['fn']] if k == e['key']]
         if not got:
-            if e.get('required'):
+            if e.get('required') and any(t['fn'] in F.new_fns for bi, t in f.calls()):
+                r.ok('absent|%s|%s' % (e['fn'], e['key']), f.file, 'comparison not found, the function now calls a new helper -- not compared; %s' % e['why'])
+            elif e.get('required'):
                 r.bad('missing|%s|%s' % (e['fn'].replace('proto::streams::', ''), e['key']), f.file, '%s no longer compares %s: %s' % (e['fn'].split('::')[-1], e['key'], e['why']))
                 found += 1
             else:
@@ -183,6 +191,8 @@ def amount_sites(F, f, callee, idx=1):
     """[(atoms of argument #idx as a '+'-joined string, line)] per call of `callee` in f"""
     out = []
     for bi, t in f.calls_to(callee):
+        if t['fn'] != callee:
+            continue  # reached through a new helper: the argument is the helper's, not comparable
         if len(t['a']) <= idx:
             continue
         at = operand_atoms(f.expr_of_op(t['a'][idx]))
@@ -372,6 +382,57 @@ def _terms_included(want, got):
     return True
 
 
+def _sites_included(want, got):
+    pool = [list(x) for x in got]
+    for w in sorted(want, key=lambda x: -len(x)):
+        hit = None
+        for k, g in enumerate(pool):
+            if _terms_included(w, g):
+                if hit is None or len(g) < len(pool[hit]):
+                    hit = k
+        if hit is None:
+            return False
+        pool.pop(hit)
+    return True
+
+
+_COMPLEMENT = {'T': 'F', 'F': 'T', 'eq': 'ne', 'ne': 'eq', 'lt': 'ge', 'ge': 'lt', 'le': 'gt', 'gt': 'le'}
+
+
+def _merge_complementary(sites):
+    """two reviewed sites whose conditions contain one test with opposite outcomes (`if a {x; y} else {z; y}`: y under a@T
+    and under a@F; `if o {return E}; if v > M {return E}`: E under o@T and under o@F & v > M) may legitimately become one
+    site that no longer depends on that test (y hoisted out of the if/else; the two exits joined by `||`): the merged
+    site keeps every other term of both"""
+    sites = [sorted(x) for x in sites]
+    changed = True
+    while changed:
+        changed = False
+        for i in range(len(sites)):
+            for j in range(i + 1, len(sites)):
+                a, b = collections.Counter(sites[i]), collections.Counter(sites[j])
+                comp = None
+                for ta in a:
+                    xa, _, pa = ta.partition('@')
+                    if not pa:
+                        continue
+                    tb = xa + '@' + _COMPLEMENT.get(pa.lstrip('~'), '?')
+                    for cand in (tb, xa + '@~' + _COMPLEMENT.get(pa.lstrip('~'), '?')):
+                        if cand in b:
+                            comp = (ta, cand)
+                if comp is None:
+                    continue
+                a[comp[0]] -= 1
+                b[comp[1]] -= 1
+                merged = sorted((a | b).elements())
+                sites = [s2 for k, s2 in enumerate(sites) if k not in (i, j)] + [merged]
+                changed = True
+                break
+            if changed:
+                break
+    return sites
+
+
 def check_guards(ctx, rid, prop):
     """reviewed guards: the set of conditions under which a reviewed action executes (dropping or adding a conjunct changes it)"""
     r = ctx.rule(rid, 'GUARD', 'guard census: each reviewed action executes under exactly the reviewed set of tests (a dropped or added conjunct changes the set)')
@@ -409,18 +470,7 @@ def check_guards(ctx, rid, prop):
         # every reviewed site (as its multiset of controlling terms) must still exist; additional sites are new behaviour, not a violation
         # (a site may acquire further controlling tests — e.g. a new early error exit above it — without violating anything:
         #  the reviewed terms must be included in the site's terms)
-        pool = [list(x) for x in got]
-        ok = True
-        for w in sorted(want, key=lambda x: -len(x)):
-            hit = None
-            for k, g in enumerate(pool):
-                if _terms_included(w, g):
-                    if hit is None or len(g) < len(pool[hit]):
-                        hit = k
-            if hit is None:
-                ok = False
-            else:
-                pool.pop(hit)
+        ok = _sites_included(want, got) or _sites_included(_merge_complementary(want), got)
         if not ok:
             # a test moved into a small helper: compare the flattened atom sets, looking through helpers that are not
             # themselves reviewed atoms (the per-switch structure is lost across the helper boundary)
